@@ -175,8 +175,9 @@ def execPlusOk (seen : List Word) : Bool :=
 def cons' (t : Tok Word) (r : List (Tok Word) × Ending) : List (Tok Word) × Ending := (t :: r.1, r.2)
 
 /-- the words of the expression → tokens.  `seen = some ws` while inside `-exec … ;`;
-    `olp` = the previous word was an operand spelled `(` (the builder looks at the previous
-    *word* when it meets `)`) -/
+    `olp` is a leftover of an earlier version of the code, which took a `)` that follows an
+    *operand* spelled `(` for empty parentheses (repaired in /repo: the builder now compares the
+    position of `)` with the start of the group); it is `false` in every call -/
 def lex (e : Ext) : RType → Option (List Word) → Bool → List Word → List (Tok Word) × Ending
   | _, none, _, [] => ([], .done)
   | _, some _, _, [] => ([], .bad)
@@ -204,7 +205,7 @@ def lex (e : Ext) : RType → Option (List Word) → Bool → List Word → List
          (match e.outFile f with
           | some true =>
             (match checkPrintf e fmt with
-             | .ok => cons' (.prim w) (lex e rt none (fmt == ['(']) rest)
+             | .ok => cons' (.prim w) (lex e rt none false rest)
              | .bad => ([], .bad)
              | .unk => ([], .unk))
           | some false => ([], .bad)
@@ -215,7 +216,7 @@ def lex (e : Ext) : RType → Option (List Word) → Bool → List Word → List
        | [] => ([], .bad)
        | op :: rest =>
          (match checkOperand e rt c op with
-          | .ok => cons' (.prim w) (lex e (nextType rt c op) none (op == ['(']) rest)
+          | .ok => cons' (.prim w) (lex e (nextType rt c op) none false rest)
           | .bad => ([], .bad)
           | .unk => ([], .unk)))
 
